@@ -61,9 +61,47 @@ func genFault(g *Gen) {
 	for h := 0; h < nHist; h++ {
 		f := newFaultGen(g)
 		l := f.l
+		bg := h%4 == 3
 		l.start(1 + g.Rng.Intn(2))
 		pSweep := 35 + g.Rng.Intn(40)
-		f.flush(pSweep)
+		flush := func(p int) {
+			if !bg {
+				f.flush(p)
+				return
+			}
+			// background-work histories: the ledger model does not cover import / removal, so the
+			// observations are `rec` ops; the sweeps carry the check (twin comparison)
+			r := f.g.Rng
+			f.rw.flush(func(op, body string) (string, string) {
+				if isObservation([]string{op}) {
+					return "rec", "rec " + body
+				}
+				if (op == "addr" || op == "notify") && r.Intn(100) < p {
+					return "sweep1-" + op, "sweep 1 0 " + body
+				}
+				return "", body
+			})
+		}
+		sweepBg := func(class, body string) {
+			k := 1
+			if g.Rng.Intn(3) == 0 {
+				k = 3
+			}
+			f.rw.emit(fmt.Sprintf("sweep%d-%s", k, class), fmt.Sprintf("sweep %d 1 %s", k, body))
+			f.g.Stats["sweep-twin"]++
+		}
+		flush(pSweep)
+		impState, removed := 0, false
+		if bg {
+			f.rw.emit("mkimport", "mkimport WI 2")
+			impState = 1
+			l.wallets = append(l.wallets, "WI")
+			for i := 0; i < l.maxAddr; i++ {
+				a := fmt.Sprintf("WIa%d", 1+i%2)
+				l.addrs["WI"] = append(l.addrs["WI"], a)
+				l.owner[a] = "WI"
+			}
+		}
 		steps := 6 + g.Rng.Intn(g.Scale(10, 22))
 		lazy := g.Rng.Intn(3) == 0
 		for s := 0; s < steps; s++ {
@@ -72,16 +110,33 @@ func genFault(g *Gen) {
 				l.extend()
 			case k < 11:
 				l.reorgTo(1+g.Rng.Intn(g.Scale(3, 6)), 1+g.Rng.Intn(2))
-			case k < 15:
+			case k < 14:
 				prunePool(l)
 				l.recv()
-			case k < 17:
+			case k < 16:
 				l.newAddr(l.wallets[g.Rng.Intn(len(l.wallets))])
-			case k < 18 && len(l.wallets) < 3:
+			case k < 17 && len(l.wallets) < 3 && !bg:
 				w := fmt.Sprintf("W%d", len(l.wallets)+1)
 				l.wallets = append(l.wallets, w)
 				l.op("wallet-mid", "wallet %s", w)
 				l.newAddr(w)
+			case k < 19 && bg:
+				l.drain()
+				flush(pSweep)
+				switch {
+				case impState == 1 && s >= 2:
+					sweepBg("import", "import WI")
+					impState = 2
+				case impState == 2:
+					sweepBg("importstep", "importstep WI")
+					impState = 3
+				case !removed && impState != 2 && len(l.wallets) > 2:
+					w := l.wallets[0]
+					sweepBg("remove", "remove "+w)
+					sweepBg("removerun", "removerun "+w)
+					removed = true
+					l.wallets = l.wallets[1:]
+				}
 			default:
 				l.processOne()
 			}
@@ -92,18 +147,26 @@ func genFault(g *Gen) {
 			} else if g.Rng.Intn(3) == 0 {
 				l.processOne()
 			}
-			f.flush(pSweep)
+			flush(pSweep)
 		}
 		l.drain()
-		f.flush(pSweep)
+		flush(pSweep)
+		if bg && impState == 1 {
+			sweepBg("import", "import WI")
+			impState = 2
+		}
+		if bg && impState == 2 {
+			sweepBg("importstep", "importstep WI")
+			f.rw.emit("importstep", "importstep WI")
+		}
 		if f.skip {
 			// the skipped notification was the last one: the node announces its tip again
 			l.op("renotify", "notify %s", l.tip().name)
-			f.flush(0)
+			flush(0)
 		}
 		l.observe(true)
 		l.op("q-wallets", "wallets")
 		l.op("faultstats", "faultstats")
-		f.flush(0)
+		flush(0)
 	}
 }
